@@ -28,6 +28,40 @@ func verifStubProof(name string) groth16.Proof {
 	A.ScalarMultiplication(&g1, sc("a"))
 	B.ScalarMultiplication(&g2, sc("b"))
 	C.ScalarMultiplication(&g1, sc("c"))
+	// directed search: the solver's counterexample depends on the byte pattern of a coordinate (leading / trailing zero bytes);
+	// find real curve points A (x coordinate) and C (y coordinate) with that pattern
+	lead, trail := int(verifGet("feat:lead").Int64()), int(verifGet("feat:trail").Int64())
+	if lead > 0 || trail > 0 {
+		match := func(b [32]byte) bool {
+			for i := 0; i < lead; i++ {
+				if b[i] != 0 {
+					return false
+				}
+			}
+			for i := 0; i < trail; i++ {
+				if b[31-i] != 0 {
+					return false
+				}
+			}
+			return b != [32]byte{}
+		}
+		k := new(big.Int).Set(sc("a"))
+		for n := 0; n < 400000; n++ {
+			A.ScalarMultiplication(&g1, k)
+			if match(A.X.Bytes()) {
+				break
+			}
+			k.Add(k, big.NewInt(1))
+		}
+		k = new(big.Int).Add(sc("c"), big.NewInt(1000003))
+		for n := 0; n < 400000; n++ {
+			C.ScalarMultiplication(&g1, k)
+			if match(C.Y.Bytes()) {
+				break
+			}
+			k.Add(k, big.NewInt(1))
+		}
+	}
 	var buf bytes.Buffer
 	enc := bn254.NewEncoder(&buf, bn254.RawEncoding())
 	enc.Encode(&A)
